@@ -6,7 +6,7 @@ N=${1:-4}; PAT=${2:-'C*_m*'}
 ROOT=${PSWEEP_ROOT:-/tmp/psweep}
 rm -rf $ROOT; mkdir -p $ROOT
 git -C /repo worktree prune
-ls -d /verif/seeded/$PAT | sort > $ROOT/all.txt
+if [ -n "$PSWEEP_LIST" ]; then for m in $PSWEEP_LIST; do echo /verif/seeded/$m; done > $ROOT/all.txt; else ls -d /verif/seeded/$PAT | sort > $ROOT/all.txt; fi
 for k in $(seq 1 $N); do
   ( w=$ROOT/w$k
     git -C /repo worktree add -q --detach $w/repo HEAD
